@@ -1,6 +1,7 @@
 import QuantemModel.Core.Proto
 import QuantemModel.Model.Serialize
 import QuantemModel.Model.SerializeSkipExt
+import QuantemModel.Model.SerializeAttrsExt
 import QuantemModel.Core.SerializeJson
 open Lean QuantemModel QuantemModel.Proto QuantemModel.Serialize QuantemModel.SerializeSkip
 
@@ -62,6 +63,13 @@ def opOfJson (j : Json) : Except String SOp := do
   | "load" => pure (.load (← strField j "path") (← skipArgOfJson (fieldD j "skip" (Json.mkObj []))))
   | k => throw s!"op kind {k}"
 
+/-- optional field `"attrs": [[class, [field, …]], …]`: the attrs classes of the graph (growth 6) -/
+def classInfoOfJson (j : Json) : Except String ClassInfo := do
+  let rows ← (← (fieldD j "attrs" (Json.arr #[])).getArr?).toList.mapM fun r => do
+    let a ← r.getArr?
+    pure ((← (a[0]?.getD Json.null).getStr?), (← strs (a[1]?.getD (Json.arr #[]))))
+  pure (classInfoOf rows)
+
 def step (st : Unit) (j : Json) : Unit × Json :=
   match (do
     let op ← strField j "op"
@@ -79,7 +87,8 @@ def step (st : Unit) (j : Json) : Unit × Json :=
         let v ← valOfJson (← field j "v")
         let sa ← skipArgOfJson (fieldD j "skip_save" (Json.mkObj []))
         let la ← skipArgOfJson (fieldD j "skip_load" (Json.mkObj []))
-        match saveE isInstanceX (normSkip sa) v with
+        let ci ← classInfoOfJson j
+        match saveEA ci isInstanceX (normSkip sa) v with
         | .error e => pure (errJson ("save:" ++ errName e))
         | .ok s =>
             let stored := Json.mkObj [("names", strArr s.skipNames), ("types", strArr s.skipTypes), ("tree", nodeSummary s.root)]
@@ -89,7 +98,8 @@ def step (st : Unit) (j : Json) : Unit × Json :=
     | "history" =>
         let pool ← (← (← field j "pool").getArr?).toList.mapM valOfJson
         let ops ← (← (← field j "ops").getArr?).toList.mapM opOfJson
-        let r := srun isInstanceX pool [] ops
+        let ci ← classInfoOfJson j
+        let r := srun isInstanceX (pool.map (viewA ci)) [] ops
         pure (okJson (Json.arr (r.2.map outToJson).toArray))
     | "ptychoskip" =>
         let a ← skipArgOfJson (fieldD j "skip" (Json.mkObj []))
